@@ -28,7 +28,7 @@ type tItem struct {
 }
 
 type tv struct {
-	kind  string // s b bn o S B N P I T L M
+	kind  string // s b bn o S B N P I T L M A (A: []interface{} with elements of any shape)
 	m     int
 	ms    []int // S / B elements, -1 = nil []byte
 	child *tv
@@ -88,6 +88,8 @@ func (t *tv) typeOf() reflect.Type {
 		return reflect.SliceOf(t.child.typeOf()) // child: the element template
 	case "M":
 		return tMap
+	case "A":
+		return reflect.SliceOf(tIface)
 	}
 	panic("kind " + t.kind)
 }
@@ -144,6 +146,16 @@ func (t *tv) build() reflect.Value {
 			}
 		}
 		return s
+	case "A":
+		s := reflect.MakeSlice(reflect.SliceOf(tIface), 0, len(t.items))
+		for _, it := range t.items {
+			e := reflect.New(tIface).Elem()
+			if it.v.kind != "N" {
+				e.Set(it.v.build())
+			}
+			s = reflect.Append(s, e)
+		}
+		return s
 	case "M":
 		m := reflect.MakeMap(tMap)
 		for _, it := range t.items {
@@ -189,6 +201,9 @@ func (t *tv) toks() []string {
 			r = append(r, "E", tg)
 		case "M":
 			r = append(r, fmt.Sprint(it.key))
+		}
+		if t.kind == "A" && it.v.kind != "N" {
+			r = append(r, "I") // the element is an interface holding the value
 		}
 		r = append(r, it.v.toks()...)
 	}
@@ -333,6 +348,27 @@ func (h *treeHarness) show(t *tv, v reflect.Value) []string {
 			r = append(r, h.show(it.v, v.Index(i))...)
 		}
 		return r
+	case "A":
+		if !v.IsValid() || v.Kind() != reflect.Slice || v.Type().Elem().Kind() != reflect.Interface || v.Len() != len(t.items) {
+			return fail("slice of interfaces expected")
+		}
+		r := []string{"L", fmt.Sprint(len(t.items))}
+		for i, it := range t.items {
+			e := v.Index(i)
+			if it.v.kind == "N" {
+				if !e.IsNil() {
+					return fail("nil element became non-nil")
+				}
+				r = append(r, "N")
+				continue
+			}
+			if e.IsNil() {
+				return fail("element became nil")
+			}
+			r = append(r, "I")
+			r = append(r, h.show(it.v, e.Elem())...)
+		}
+		return r
 	case "M":
 		if !v.IsValid() || v.Kind() != reflect.Map || v.Len() != len(t.items) {
 			return fail("map expected")
@@ -441,9 +477,39 @@ func (h *treeHarness) gen(depth int, under string) *tv {
 			c = h.gen(depth-1, "I")
 		}
 		return &tv{kind: "I", child: c}
-	case r < 11: // slice of one element shape (struct, pointer to struct, map, inner slice)
+	case r < 11: // slice of one element shape (struct, pointer to struct, map, inner slice), or of interfaces
+		if p.chance(1, 3) {
+			t := &tv{kind: "A"}
+			for i := p.intn(4); i > 0; i-- {
+				var e *tv
+				switch p.intn(8) {
+				case 0:
+					e = &tv{kind: "s", m: h.fresh()}
+				case 1:
+					e = h.genStruct(depth - 1) // a struct held by value
+				case 2:
+					e = &tv{kind: "P", child: h.genStruct(depth - 1)}
+				case 3:
+					e = &tv{kind: "N"}
+				case 4:
+					e = &tv{kind: "M", items: []tItem{{key: 1, v: &tv{kind: "s", m: h.fresh()}}}}
+				case 5:
+					e = &tv{kind: "S", ms: []int{h.fresh()}}
+				case 6:
+					e = &tv{kind: "b", m: h.fresh()}
+				default:
+					e = &tv{kind: "o"}
+				}
+				t.items = append(t.items, tItem{v: e})
+			}
+			return t
+		}
 		var tmpl *tv
-		switch p.intn(5) {
+		switch p.intn(7) {
+		case 5:
+			tmpl = &tv{kind: "S", ms: []int{0}} // [][]string
+		case 6:
+			tmpl = &tv{kind: "B", ms: []int{0}} // [][][]byte
 		case 0:
 			tmpl = h.gen(depth-1, "L")
 			for tmpl.kind != "T" {
